@@ -311,6 +311,8 @@ def concretize(contract, classes, model, mod=None):
                     setattr(o, f, int(fv))
                 elif fk == "bool":
                     setattr(o, f, bool(fv))
+                elif fk == "real":
+                    setattr(o, f, float(frac(fv)))
                 elif fk == "seq[real]":
                     n = int(fv["len"])
                     if n > 4096:
